@@ -82,12 +82,14 @@ theorem qAfter_spec (c : Comp σ π) (L : Limits) (beta : Score) (ply : Int) (m 
     Mono L s o.2 ∧ o.2.board = s.board.undoMove m r ∧ o.2.hstack = s.hstack ∧ o.2.frames = s.frames ∧ o.2.pv = s.pv ∧
       (∀ l', o.1 ≠ .brk l') := by
   simp only [qAfter]
+  have hf := abort_frame L (s.setBoard (s.board.undoMove m r))
+  have hp := abort_pv L (s.setBoard (s.board.undoMove m r))
+  generalize abort L (s.setBoard (s.board.undoMove m r)) = as at hf hp ⊢
   split
-  · exact ⟨(mono_setBoard L s _).trans (mono_setPs L _ _), rfl, rfl, rfl, rfl, fun _ h => by cases h⟩
-  · have hf := abort_frame L (s.setBoard (s.board.undoMove m r))
-    have hp := abort_pv L (s.setBoard (s.board.undoMove m r))
-    split
-    · exact ⟨(mono_setBoard L s _).trans hf.mono, hf.board, hf.hstack, hf.frames, hp.1, fun _ h => by cases h⟩
+  · exact ⟨(mono_setBoard L s _).trans hf.mono, hf.board, hf.hstack, hf.frames, hp.1, fun _ h => by cases h⟩
+  · split
+    · exact ⟨((mono_setBoard L s _).trans hf.mono).trans (mono_setPs L _ _), hf.board, hf.hstack, hf.frames, hp.1,
+        fun _ h => by cases h⟩
     · exact ⟨(mono_setBoard L s _).trans hf.mono, hf.board, hf.hstack, hf.frames, hp.1, fun _ h => by cases h⟩
 
 theorem qLoop_spec (c : Comp σ π) (L : Limits) {Good : Board → Prop} (hl : Laws c Good)
@@ -148,11 +150,11 @@ theorem qBody_spec (c : Comp σ π) (L : Limits) {Good : Board → Prop} (hl : L
       · exact ⟨Frame.refl L s, rfl⟩
       · split
         · exact ⟨Frame.refl L s, rfl⟩
-        · have h := qLoop_spec c L hl child hc beta (c.eval s.board) ply (c.qMoves s.ps s.board s.hstack)
-            { alpha := max alpha (c.eval s.board), maxim := c.eval s.board } s.pushFrame hg
+        · have h := qLoop_spec c L hl child hc beta (evaluate c s.board) ply (c.qMoves s.ps s.board s.hstack)
+            { alpha := max alpha (evaluate c s.board), maxim := evaluate c s.board } s.pushFrame hg
             (fun mw hmw => hl.q_mem s.ps s.board s.hstack mw.1 mw.2 hg hmw)
-          generalize qLoop c L child beta (c.eval s.board) ply (c.qMoves s.ps s.board s.hstack)
-            { alpha := max alpha (c.eval s.board), maxim := c.eval s.board } s.pushFrame = r at h ⊢
+          generalize qLoop c L child beta (evaluate c s.board) ply (c.qMoves s.ps s.board s.hstack)
+            { alpha := max alpha (evaluate c s.board), maxim := evaluate c s.board } s.pushFrame = r at h ⊢
           have hfr : Frame L s r.2.popFrame :=
             ⟨(mono_pushFrame L s).trans (h.1.mono.trans (mono_popFrame L _)), h.1.board, h.1.hstack,
              by simp [h.1.frames]⟩
